@@ -483,6 +483,18 @@ func TestLaws(t *testing.T) {
 	for _, o := range objs {
 		seeds = append(seeds, Seed{"std:" + o.Kind, o.DER})
 	}
+	// the key kinds the standard library's encoders do not issue (secp192r1, DSA, three-prime RSA), in every container
+	for _, kind := range []string{"p192", "dsa", "rsa3"} {
+		m, err := Material(kind)
+		if err != nil {
+			t.Fatal(err)
+		}
+		for _, en := range []string{"pkcs8", "pkcs1", "sec1", "pkix", "csr", "cert"} {
+			if b, err := m.Container(en); err == nil {
+				seeds = append(seeds, Seed{"mat:" + en + ":" + kind, b})
+			}
+		}
+	}
 	kinds := []string{"sanDNS", "sanEmail", "sanIP", "sanURI", "nc", "ku", "eku", "bc", "pol", "aia", "crldp", "ski", "aki", "unkCrit", "unkNon"}
 	ncert := 40
 	for i := 0; i < ncert; i++ {
@@ -565,6 +577,8 @@ func TestReplayOne(t *testing.T) {
 			Template Template `json:"template"`
 			Walk     *HWalk   `json:"walk"`       // kind history: the history up to the failing call
 			Before   string   `json:"before_hex"` // kind purity: the input parsed before this one
+			Case     *KeyCase `json:"case"`       // kind keycase: the case of X509ParseKeys.tla
+			Plan     *FUPlan  `json:"plan"`       // kind firstuse: the plan (run again in fresh processes)
 		} `json:"replay"`
 	}
 	if err := json.Unmarshal(raw, &rp); err != nil {
@@ -577,6 +591,15 @@ func TestReplayOne(t *testing.T) {
 	rep := vh.NewReport("c11-replayone", "re-execution of one recorded input")
 	defer rep.Write()
 	k := &Checker{Rep: rep}
+	if rp.Replay.Kind == "firstuse" && rp.Replay.Plan != nil {
+		// the plan again, in fresh processes (under the race detector when the driver built this binary with it)
+		n, err := runPlans(k, []FUPlan{*rp.Replay.Plan}, 6, 2, raceEnabled)
+		if err != nil {
+			t.Fatal(err)
+		}
+		rep.Replayed = n
+		return
+	}
 	e := EntryByName(rp.Replay.Entry)
 	if e == nil {
 		t.Fatalf("unknown entry %q", rp.Replay.Entry)
@@ -608,6 +631,10 @@ func TestReplayOne(t *testing.T) {
 				return
 			}
 			k.Purity(PurityFamily{Kind: "replay", Entries: []string{e.Name}, Inputs: [][]byte{before, in}}, rand.New(rand.NewSource(1)), 4, sl.s[0])
+		case "keycase":
+			if c := rp.Replay.Case; c != nil && !allowed(c.Allowed, o.Class()) && o.Panic == nil && !strings.HasPrefix(o.Class(), "mixed") {
+				k.violate(fmt.Sprintf("keyclass:%s:%s:want=%s:got=%s", e.Name, c.D, strings.Join(c.Allowed, "|"), o.Class()), "outcome class outside the allowed set", e.Name, in, nil)
+			}
 		case "class":
 			if m := rp.Replay.Mutation; m != nil && !allowed(m.Allowed, o.Class()) {
 				k.violate(fmt.Sprintf("class:%s:%s:want=%s:got=%s", m.Name, e.Name, strings.Join(m.Allowed, "|"), o.Class()), "outcome class outside the allowed set", e.Name, in, nil)
